@@ -546,7 +546,10 @@ func (m *M) ValidatedAC(t *rapid.T) {
 }
 
 // Fetch reads a key that only the backend has, possibly with a fault.
-func (m *M) Fetch(t *rapid.T) {
+func (m *M) Fetch(t *rapid.T) { m.FetchKV(t) }
+
+// FetchKV is Fetch that also reports the key, its logical size and whether it was a hit.
+func (m *M) FetchKV(t *rapid.T) (string, int64, bool) {
 	if m.P == nil {
 		t.Skip("no backend")
 	}
@@ -555,6 +558,9 @@ func (m *M) Fetch(t *rapid.T) {
 	key := cache.LookupKey(kind, hash)
 	if _, ok := m.Snapshot()[key]; ok {
 		t.Skip("present locally")
+	}
+	if int64(len(data)) > m.Cfg.MaxSize {
+		t.Skip("larger than the cache")
 	}
 	stored := data
 	if kind == cache.CAS && m.Cfg.Storage == "zstd" {
@@ -610,6 +616,7 @@ func (m *M) Fetch(t *rapid.T) {
 		}
 	}
 	m.P.SetFault(kind, hash, fproxy.Fault{})
+	return key, int64(len(data)), hit && rerr == nil
 }
 
 func short(key string) string {
